@@ -34,3 +34,12 @@ META["C27"] = dict(
     note="Assumes SliceReader is the specification (as the property states). Lengths are bounded so SliceReader's own "
          "usize overflow is not triggered here.",
 )
+META["C10"] = dict(
+    technique="differential monitor against reference modular arithmetic (boundary lattice + operation chains), termination watchdog, Miri",
+    text="Every operation result is compared with independent canonical-integer arithmetic over the documented prime and "
+         "irreducible polynomial; operands are drawn at internal-representation boundaries and results are fed back as "
+         "operands (chains), so non-canonical intermediates occur as in real use; `==` is compared with canonical equality "
+         "and inversion must return within 3 s. ~0.6M operations quick, ~15M thorough; the boundary bands are exhaustive.",
+    note="Trusted: refarith.rs (u128 `%`, double-and-add for f128, Gaussian elimination for extension inverses; self-test "
+         "at start). Sampling outside the lattice bands.",
+)
